@@ -10,4 +10,9 @@ CONSTANTS
   RestoreOnReturn = TRUE
   EmbRestoreAll = TRUE
   SuperCheckFirst = TRUE
+  GuardCanonical = TRUE
+  RegisterAfterCreate = TRUE
+  NsCachesInit = TRUE
+  EmbNullChecked = TRUE
+  OverflowWrapped = TRUE
 CHECK_DEADLOCK FALSE
